@@ -23,6 +23,7 @@ func main() {
 	defer drv.Close()
 	runInclude(f, res, drv)
 	runPull(f, res, drv)
+	runPullID(f, res, drv)
 	runMultiTable(f, res, drv)
 	runMulti(f, res, drv)
 	runSched(f, res, drv)
@@ -68,6 +69,14 @@ func replay(f lib.Flags) int {
 			fmt.Printf("replay pull burst %v -> results %v events %v list %s\n", b.Ops, b.Results, b.Events, b.List)
 		}
 		s.monitor(m, obs)
+	case "pullid":
+		var s idSession
+		if err := json.Unmarshal(raw, &s); err != nil {
+			lib.Fatal(err)
+		}
+		o := s.run()
+		fmt.Printf("replay pullid %s: seed %v per write %v late %v closed %v list %s\n", s.ID, o.Seed, o.Per, o.Late, o.Closed, o.List)
+		s.monitor(m, o)
 	case "multi":
 		var ms multiSession
 		if err := json.Unmarshal(raw, &ms); err != nil {
